@@ -59,6 +59,11 @@ func (c *concurrencyOperator) Next(ctx context.Context) ([]model.StepVector, err
 
 	r, ok := <-c.buffer
 	if !ok {
+		// The error of a cancelled pull can be swallowed by the goroutine which
+		// drains the buffer. A cancelled stream must not look like a complete one.
+		if err := ctx.Err(); err != nil {
+			return nil, err
+		}
 		return nil, nil
 	}
 	if r.err != nil {
